@@ -190,7 +190,17 @@ pub fn cost_model_values(lang: u8) -> Vec<i64> {
         2 => 175,
         _ => 251,
     };
-    (0..n).map(|i| ((i as i64 * 7919 + lang as i64 * 104729) % 100000) - if i % 17 == 0 { 50000 } else { 0 }).collect()
+    // a few parameters sit on the first / last value of a CBOR width class of negative integers
+    const EDGES: [i64; 10] = [-24, -25, -256, -257, -65536, -65537, -4294967296, -4294967297, -1, -23];
+    (0..n)
+        .map(|i| {
+            if i % 13 == 5 {
+                EDGES[((i / 13) as usize + lang as usize) % EDGES.len()]
+            } else {
+                ((i as i64 * 7919 + lang as i64 * 104729) % 100000) - if i % 17 == 0 { 50000 } else { 0 }
+            }
+        })
+        .collect()
 }
 
 pub fn costmdls(langs: u8) -> csl::Costmdls {
@@ -674,7 +684,12 @@ impl<'a> Session<'a> {
             }
             ActionSpec::Info => csl::GovernanceAction::new_info_action(&csl::InfoAction::new()),
         };
-        csl::VotingProposal::new(&action, &anchor(p.deposit ^ 0x55), &w.reward_address(&p.reward), &bn(p.deposit))
+        let mut anc = anchor(p.deposit ^ 0x55);
+        if p.mirror != 0 {
+            let url = csl::URL::new(format!("https://mirror{}.example/{}", p.mirror, p.deposit ^ 0x55)).unwrap();
+            anc = csl::Anchor::new(&url, &anc.anchor_data_hash());
+        }
+        csl::VotingProposal::new(&action, &anc, &w.reward_address(&p.reward), &bn(p.deposit))
     }
 
     fn metadatum(seed: u8, depth: u8) -> csl::TransactionMetadatum {
@@ -1012,7 +1027,14 @@ impl<'a> Session<'a> {
                 Res::Ok
             }
             Op::InReqSigner(k) => {
-                self.inb.add_required_signer(&key(*k).hash);
+                if *k % 2 == 0 {
+                    // the plural entry point, with a one-element collection
+                    let mut one = csl::Ed25519KeyHashes::new();
+                    one.add(&key(*k).hash);
+                    self.inb.add_required_signers(&one);
+                } else {
+                    self.inb.add_required_signer(&key(*k).hash);
+                }
                 self.tx.set_inputs(&self.inb);
                 self.mark_value_change();
                 Res::Ok
